@@ -47,6 +47,11 @@ CLAIMS = {
          "Both login flows run against an in-memory peer that answers with generated scripts; every single-edit mutation (delete/duplicate/swap/insert packages, alter ack status, message id, parameter count/types, cipher suite, key, nonce, capability masks, DONE status, peer going silent) of four valid scripts is enumerated, random multi-edit scripts add depth; Login must succeed iff the acceptor accepts, otherwise return an error no later than context deadline + slack and never panic; after success capabilities and packet size must be the server's.",
          "The reference acceptor is my reading of the statement; unjudged shapes (packages after the final DONE, key with trailing bytes, empty nonce, capability package lacking a mask type) are listed in the evidence; two by-the-letter violations are recorded open findings.",
          "DESIGN.md section 3, C08"),
+ "C09": ("exploration",
+         "rapid login configurations (arbitrary-byte passwords up to key capacity, colliding fields, remote servers, nonces, key sizes, packet sizes) against a scripted peer that owns the RSA private key; oracles: password-slot inspection, metamorphic non-interference between two logins differing only in the password, clear-text search with a plain-flow control, decryption of every ciphertext, freshness",
+         "Every generated login is captured byte for byte: the login record's password slot must be empty; a second login with another password of the same length must produce identical traffic outside the ciphertexts located by the independent decoder; distinctive secrets must occur in no written byte and no error text (failing scripts included); the peer decrypts each LONGBINARY with the private key to nonce||secret (account password twice, each remote password, a 32-byte session key) and checks fresh randomness; the plain flow shows the search oracle can see a password.",
+         "Crypto randomness is not seed-reproducible (the case stores key and nonce); secrets shorter than 6 bytes or colliding with other fields are only covered by the non-interference and decryption oracles, not by the text search.",
+         "DESIGN.md section 3, C09"),
  "C11": ("exploration",
          "rapid histories of responses with interleaved EED/ENVCHANGE packages x packetisations x hook registrations x consumer modes against one global event log; exhaustive single cuts of a special-package-heavy response",
          "Responses with 0..6 messages and 0..3 environment changes are delivered under every kind of packetisation (special packages get parsed, rolled back and re-parsed) with hooks registered before or between responses; the event log must show every hook called exactly once per non-informational message / member, with equal contents, in arrival and registration order and before later packages reach the consumer; informational messages and environment changes are never delivered; PacketSize() follows the last PACKSIZE member; a failing callback's error matches the callback error and carries the messages that preceded the failure.",
